@@ -520,6 +520,28 @@ def f_spi_grid(ids, rng, sample=1.0, big=0):
                 calls.append({"name": "xport.send_repeated_pixel", "n": n,
                               "pixel": pix_words(rng, n, 8, rng.choice(["rand", "seq", "same"])), "count": split16(cnt)})
             out.append(scn(ids, xcfg("spi", buf), calls, tag="spi-repeat", budget=20000))
+    # one interface object used with different words-per-pixel in turn (a display of another colour depth built over
+    # a released interface): whatever the interface remembers from the earlier pixel size must not leak into the next
+    for buf in (4, 5, 7, 8, 64, 100):
+        calls = [RAMWR]
+        for _ in range(6 if sample >= 1 else 4):
+            n = rng.choice([1, 2, 3])
+            if buf < n:
+                continue
+            cap = buf // n
+            cnt = rng.choice([cap, 2 * cap + 1, 31 * cap, 7])
+            if rng.random() < 0.5:
+                calls.append({"name": "xport.send_pixels", "n": n, "px": [pix_words(rng, n, 8, "seq", base=rng.randrange(256)) for _ in range(cnt)]})
+            else:
+                calls.append({"name": "xport.send_repeated_pixel", "n": n, "pixel": pix_words(rng, n, 8, rng.choice(["seq", "same"])), "count": split16(cnt)})
+            calls.append(RAMWR)
+        out.append(scn(ids, xcfg("spi", buf), calls, tag="spi-mixed-n", budget=40000))
+    # a staging buffer of 64 KiB and more, filled completely by one stream (indices / lengths narrower than usize)
+    for (n, buf) in ((2, 65536), (3, 65540)):
+        cnt = buf // n + 7
+        out.append(scn(ids, xcfg("spi", buf), [RAMWR, {"name": "xport.send_pixels", "n": n, "px": [[(i * 7 + j) % 256 for j in range(n)] for i in range(cnt)]},
+                                               RAMWR, {"name": "xport.send_repeated_pixel", "n": n, "pixel": [1, 2, 3][:n], "count": split16(cnt)}],
+                       tag="spi-big-buffer", budget=20000))
     # commands with parameter lists of length 0..17+
     for buf in (1, 2, 3, 5, 64):
         calls = []
@@ -631,11 +653,19 @@ def f_parallel(ids, rng, sample=1.0, big=0):
                     prev = vals[i - 1] if i else (v ^ 0x55) & ((1 << wbits) - 1)
                     nxt = rng.choice(["prev", "prev", "same", "same", "other"])
                     calls.append({"name": "bus.set_value", "v": prev if nxt == "prev" else v if nxt == "same" else rng.choice(alpha)})
+                    if rng.random() < 0.35:
+                        # two failures in a row, the second on another (often lower) pin, no success in between
+                        faults.append({"call": len(calls), "k": rng.randrange(1, max(2, faults[-1]["k"] + 1)), "effect": rng.random() < 0.5})
+                        calls.append({"name": "bus.set_value", "v": rng.choice([prev, v, rng.choice(alpha)])})
                     if rng.random() < 0.5:
                         calls.append({"name": "bus.set_value", "v": rng.choice([prev, v])})
             s = scn(ids, xcfg(busname), calls, tag="bus-faults")
             s["faults"] = faults
             out.append(s)
+    # one pixel stream with 65 536 and more consecutive equal pixels (run counters narrower than the stream)
+    for iface, wbits, n, cnt in (("p16", 16, 1, 65537), ("p8", 8, 2, 65536)):
+        v = rng.randrange(1 << wbits)
+        out.append(scn(ids, xcfg(iface), [RAMWR, {"name": "xport.send_pixels", "n": n, "px": [[v] * n] * cnt + [[v ^ 1] * n, [v] * n]}], tag="par-long-run", budget=1000000))
     for iface, wbits in (("p8", 8), ("p16", 16)):
         for n, cnt in huge_counts(rng):
             v = rng.randrange(1 << wbits); u = v ^ (1 << rng.randrange(wbits))
@@ -777,7 +807,7 @@ def f_lifecycle(ids, rng, n_per_model=3, length=12, models=None, ifaces=None, fa
             calls = [INIT]
             faults = []
             for _ in range(rng.randrange(2, length + 1)):
-                k = rng.choice(["sleep", "sleep", "wake", "wake", "draw", "orient", "scroll", "tear", "clear", "raw"])
+                k = rng.choice(["sleep", "sleep", "wake", "wake", "draw", "orient", "scroll", "region", "tear", "clear", "raw"])
                 if k in ("sleep", "wake"):
                     calls.append({"name": k})
                     if rng.random() < fault_rate:
@@ -791,6 +821,9 @@ def f_lifecycle(ids, rng, n_per_model=3, length=12, models=None, ifaces=None, fa
                     calls.append({"name": "set_orientation", "rot": r2, "mir": m2})
                 elif k == "scroll":
                     calls.append({"name": "scroll_offset", "v": rng.randrange(65536)})
+                elif k == "region":
+                    t = rng.randrange(0, H + 1)
+                    calls.append({"name": "scroll_region", "top": t, "bottom": rng.randrange(0, H - t + 1)})
                 elif k == "tear":
                     calls.append({"name": "tearing", "mode": rng.choice(["off", "v", "hv"])})
                 elif k == "raw":
@@ -901,17 +934,41 @@ def fault_bases(ids, rng, quick):
                 if op2["name"] == "set_pixels":
                     op2["win"] = [0, 0, lw - 1, lh - 1]; op2["colors"] = list(range(1, lw * lh + 1))
                 # after the failure every drawing entry point must still work, whichever comes first
-                post = [{"name": "clear", "c": 0x0B0B}, {"name": "set_pixel", "x": lw - 1, "y": lh - 1, "c": 7},
+                # (a fill in the colour of the fill before the failure: what the failed call left staged must not be taken for it)
+                post = [{"name": "clear", "c": rng.choice([0x0A0A, 0x0B0B])}, {"name": "set_pixel", "x": lw - 1, "y": lh - 1, "c": 7},
                         {"name": "draw_iter", "px": [[0, 0, 21], [1, 0, 22], [lw, 0, 23]]},
                         {"name": "fill_contiguous", "rect": [0, 0, lw, lh], "colors": {"start": 700, "len": -1}},
                         {"name": "fill_solid", "rect": [0, 0, lw, 1], "c": 0x0C0C},
                         {"name": "set_pixels", "win": [0, 0, lw - 1, lh - 1], "colors": list(range(31, 31 + lw * lh))}]
                 rng.shuffle(post)
+                if rng.random() < 0.3:
+                    # a power cycle of the panel somewhere in the recovery (a driver may re-send cached state on wake-up)
+                    at = rng.randrange(0, len(post))
+                    post[at:at] = [{"name": "sleep"}, {"name": "wake"}]
                 if rng.random() < 0.5:
                     post.insert(0, dict(op2))           # the application simply retries the call that failed
                 s = scn(ids, c, pre + [op2] + post, tag="fault-op")
                 s["_target"] = len(pre) + 1
                 s["_ksample"] = (1.0 if iface in ("spi", "rec") else 0.25) if quick else 1.0
+                out.append(s)
+    # C: what a failed pixel stream leaves in a staging buffer: fill in colour C, a stream that fails, a SMALLER stream
+    #    that succeeds, then a fill in colour C again (buffers larger than the whole panel, so that one load holds it all)
+    for (model, w, h, ox, oy) in [("tiny565_4x3", 4, 3, 0, 0), ("tiny565_4x3", 3, 2, 1, 1), ("tiny666_3x2", 3, 2, 0, 0)]:
+        for iface in (("spi",) if quick else ("spi", "p8")):
+            rot, mir = rng.choice(ORIENTS)
+            lw, lh = lsize(w, h, rot)
+            C = rng.choice([0x0A0A, 0x1234, 0xFFFF])
+            big = [{"name": "set_pixels", "win": [0, 0, lw - 1, lh - 1], "colors": list(range(0x4001, 0x4001 + lw * lh))},
+                   {"name": "fill_contiguous", "rect": [0, 0, lw, lh], "colors": {"start": 0x5001, "len": lw * lh}},
+                   {"name": "draw_iter", "px": [[i, 0, 0x6001 + i] for i in range(lw)]}]
+            small = [{"name": "set_pixel", "x": 0, "y": 0, "c": 0x7001}, {"name": "draw_iter", "px": [[lw - 1, lh - 1, 0x7002]]}]
+            again = [{"name": "clear", "c": C}, {"name": "fill_solid", "rect": [0, 0, lw, lh], "c": C}]
+            for op in big:
+                c = cfg(model, w, h, ox, oy, rot, mir, iface=iface, buf=rng.choice([64, 100, 256]), rst=True)
+                pre = [INIT, rng.choice(again)]
+                s = scn(ids, c, pre + [dict(op), rng.choice(small), rng.choice(again), {"name": "set_pixel", "x": lw - 1, "y": 0, "c": 0x7003}], tag="fault-op")
+                s["_target"] = len(pre) + 1
+                s["_ksample"] = 1.0
                 out.append(s)
     return out
 
@@ -1343,6 +1400,37 @@ def f_huge_fill(ids, rng, ifaces=("p8", "p16", "spi")):
     return out
 
 
+def f_orient_asleep(ids, rng, n=100, ifaces=("rec", "spi", "p8")):
+    """the orientation is changed while the panel sleeps - after tearing-effect, scrolling or idle set-up that a driver might
+    want to restore on wake-up - then the panel is woken and drawn on: what counts is the last orientation set"""
+    out = []
+    for _ in range(n):
+        W, H = rng.choice([(4, 3), (3, 3), (2, 3)])
+        w = rng.randrange(1, W + 1); h = rng.randrange(1, H + 1)
+        ox = rng.randrange(0, W - w + 1); oy = rng.randrange(0, H - h + 1)
+        rot, mir = rng.choice(ORIENTS)
+        c = cfg("tiny565_%dx%d" % (W, H), w, h, ox, oy, rot, mir, iface=rng.choice(ifaces), buf=rng.choice([2, 3, 64]), rst=rng.random() < 0.5)
+        calls = [INIT, {"name": "clear", "c": 0x0101}]
+        pre = [{"name": "tearing", "mode": rng.choice(["v", "hv", "off"])}, {"name": "scroll_region", "top": 1, "bottom": 1 if H > 2 else 0},
+               {"name": "scroll_offset", "v": rng.randrange(H)}, {"name": "set_pixel", "x": 0, "y": 0, "c": 0x2222}]
+        rng.shuffle(pre)
+        calls += pre[:rng.randrange(0, 4)]
+        calls.append({"name": "sleep"})
+        for _ in range(rng.randrange(1, 3)):
+            rot, mir = rng.choice(ORIENTS)
+            calls.append({"name": "set_orientation", "rot": rot, "mir": mir})
+            if rng.random() < 0.3:
+                calls.append({"name": "tearing", "mode": rng.choice(["v", "hv", "off"])})
+        calls.append({"name": "wake"})
+        lw, lh = lsize(w, h, rot)
+        col = 0x3000
+        for (x, y) in sorted({(0, 0), (lw - 1, 0), (0, lh - 1), (lw - 1, lh - 1)}):
+            calls.append({"name": "set_pixel", "x": x, "y": y, "c": col}); col += 0x0111
+        calls.append({"name": "fill_solid", "rect": [-1, 0, lw, lh + 1], "c": 0x4444})
+        out.append(scn(ids, c, calls, tag="reorient"))
+    return out
+
+
 def f_xport_faults(ids, rng, ifaces=("p8", "p16"), n=200):
     """interface-level calls on a real transport with one failing low-level operation somewhere inside:
     what reached the bus before it must be a prefix of what was to be sent, and nothing may follow"""
@@ -1417,6 +1505,7 @@ def f_fault_retry(ids, rng, n, flavour="oob", ifaces=("spi", "rec", "p8"), tag="
         iface = rng.choice(ifaces)
         c = cfg("tiny565_%dx%d" % (W, H), w, h, ox, oy, rot, mir, iface=iface, buf=rng.choice([2, 3, 4, 64]))
         lw, lh = lsize(w, h, rot)
+        lw0, lh0 = lw, lh                             # logical size while the failed call has not been retried
         calls = [INIT, {"name": "clear", "c": 0x0A0A}]
         if rng.random() < 0.5:
             r2, m2 = rng.choice(ORIENTS)
@@ -1433,6 +1522,11 @@ def f_fault_retry(ids, rng, n, flavour="oob", ifaces=("spi", "rec", "p8"), tag="
             op = {"name": "draw_iter", "px": [[rng.randrange(-1, lw + 1), rng.randrange(-1, lh + 1), 40 + i] for i in range(4)]}
         calls.append(op)
         fcall = len(calls)
+        if rng.random() < 0.4:
+            # the application goes on drawing before it retries (what the failed attempt cached meets a later refill)
+            calls.append({"name": "set_pixel", "x": rng.randrange(lw0), "y": rng.randrange(lh0), "c": 0x0B0B})
+            if rng.random() < 0.5:
+                calls.append({"name": "fill_solid", "rect": [0, 0, lw0, lh0], "c": 0x0C0C})
         calls.append(dict(op))                       # the retry
         col = 200
         for _ in range(4):
